@@ -56,7 +56,8 @@ def main():
                     viol = [l for l in out.split("\n") if l.startswith("VIOLATION")]
                     verdicts.append((p, rc, viol, out))
                 if kind == "mutants":
-                    ok = any(v[2] and (not m.get("expect") or any(m["expect"] in l for l in v[2])) for v in verdicts)
+                    # the obligation that failed is named on the FAILED-OBLIGATION line printed before each VIOLATION line
+                    ok = any(v[2] and (not m.get("expect") or any(m["expect"] in l for l in v[3].split("\n") if l.startswith("FAILED-OBLIGATION"))) for v in verdicts)
                     print(f"mutants/{name}: {'KILLED' if ok else 'SURVIVED'}  " + "; ".join(f"{p}: exit {rc}, {len(v)} violation(s)" for p, rc, v, _ in verdicts))
                     if ok: killed += 1
                     else:
